@@ -17,3 +17,7 @@ def run(tier, rep):
         "optional<T&> has no libstdc++ counterpart: the spec (P2988) is calibrated against a reference_wrapper based adapter",
         "the TLA+ reading of std::optional/variant/expected is calibrated against libstdc++ (-std=c++23) on the same scripts",
     ]
+
+
+def replay(path):
+    return sumpipe.replay(path)
